@@ -1,12 +1,48 @@
-(** Property C16 (source map).
-    OBLIGATIONS: C16_nonvacuous *)
-From GV Require Import Compiler.Compile.
+(** Property C16 — position map is in-bounds and its two directions are mutually inverse.
+    Theorems are about Compiler/SrcMap.v (SourceMap.Add, the two lookups; a Go map is the list of its insertions,
+    the last insertion for a key wins).  The uniqueness hypothesis is decidable ([keys_unique]) and is evaluated by
+    the C16 check on the entries the (byte-exact) compiler model produces for every accepted file; bounds are
+    checked on the real tables entry by entry.
+    OBLIGATIONS: C16_round_trip_from_template C16_round_trip_from_generated C16_uniqueness_is_decidable
+      C16_fragment_is_a_shift C16_strictly_increasing_within_fragment C16_nonvacuous *)
+From GV Require Import Compiler.Compile Proofs.SrcMapProofs.
 
+Theorem C16_round_trip_from_template : forall es l c tl tc,
+  keys_unique es = true -> s2t es l c = Some (tl, tc) -> t2s es tl tc = Some (l, c).
+Proof. intros es l c tl tc H. destruct (keys_unique_sound es H). apply round_trip_source; assumption. Qed.
+Print Assumptions C16_round_trip_from_template.
+
+Theorem C16_round_trip_from_generated : forall es l c sl sc,
+  keys_unique es = true -> t2s es l c = Some (sl, sc) -> s2t es sl sc = Some (l, c).
+Proof. intros es l c sl sc H. destruct (keys_unique_sound es H). apply round_trip_target; assumption. Qed.
+Print Assumptions C16_round_trip_from_generated.
+
+Theorem C16_uniqueness_is_decidable : forall es,
+  keys_unique es = true -> NoDup (map src_key es) /\ NoDup (map tgt_key es).
+Proof. exact keys_unique_sound. Qed.
+Print Assumptions C16_uniqueness_is_decidable.
+
+(** every entry of one Add lies on the fragment's line in both texts, shifted by a constant column offset *)
+Theorem C16_fragment_is_a_shift : forall a e,
+  In e (add_entries a) ->
+  exists idx, (se_sl e = sa_line a + Z.of_nat idx - 1)%Z /\ (se_tl e = sa_tline a + Z.of_nat idx - 1)%Z /\
+              (se_tc e = se_sc e + line_shift a idx)%Z.
+Proof. exact add_is_shift_per_line. Qed.
+Print Assumptions C16_fragment_is_a_shift.
+
+Theorem C16_strictly_increasing_within_fragment : forall a e1 e2,
+  In e1 (add_entries a) -> In e2 (add_entries a) -> se_sl e1 = se_sl e2 ->
+  (se_tl e1 = se_tl e2 /\ se_tc e2 - se_tc e1 = se_sc e2 - se_sc e1)%Z.
+Proof. exact add_monotone. Qed.
+Print Assumptions C16_strictly_increasing_within_fragment.
+
+(** non-vacuity: the entries the compiler model produces for a file with a multi-line fragment and a format verb
+    satisfy the uniqueness hypothesis *)
 Example C16_nonvacuous :
-  let src := lit "@goht T(a string) {" ++ [10; 9] ++ lit "%p #{a}" ++ [10] ++ lit "}" ++ [10] in
+  let src := lit "package x" ++ [10] ++ lit "@goht T(a string," ++ [10; 9] ++ lit "n int) {" ++ [10; 9] ++
+             lit "%p{t: #{a}} x #{%d n} #{a}" ++ [10] ++ lit "}" ++ [10] in
   match lsp_compose src with
-  | Some (_, adds, None) =>
-    match s2t (sm_entries adds) 1%Z 6%Z with Some (tl, tc) => Z.eqb tl 20 && Z.eqb tc 58 | None => false end
+  | Some (_, adds, None) => keys_unique (sm_entries adds) && Nat.ltb 25 (List.length (sm_entries adds))
   | _ => false
   end = true.
 Proof. vm_compute. reflexivity. Qed.
